@@ -592,4 +592,677 @@ theorem run_sound (c : Cfg) (tg : Nat → Nat → Bool) (hrefl : c.Refl) :
     have := rowStep_sound c tg false (c.H - 1 - n) pan o hrefl (by omega) hP.1 hP.2 ho
     exact ⟨⟨this.1, this.2.1⟩, this.2.2⟩
 
+/-- soundness of one cell of the result -/
+theorem run_cell_sound (c : Cfg) (tg : Nat → Nat → Bool) (hrefl : c.Refl) (r p : Nat) (hr : r < c.H) (hp : p < c.W) :
+    (∀ d, proxAt (run c tg) r p = some d →
+      ∃ t, allocAt (run c tg) r p = some t ∧ IsTarget c tg t ∧ d = dT c r p t ∧ withinMax c d = true) ∧
+    (proxAt (run c tg) r p = none → allocAt (run c tg) r p = none) :=
+  (run_sound c tg hrefl r hr).snd p hp
+
+/-! ### lengths and real targets only (no assumption on the metric) -/
+
+structure LOK (c : Cfg) (tg : Nat → Nat → Bool) (s : LineSt) : Prop where
+  lpan : s.pan.length = c.W
+  llp : s.lp.length = c.W
+  lnr : s.nr.length = c.W
+  tok : TOK c tg s.pan
+
+theorem pixel_LOK (c : Cfg) (tg : Nat → Nat → Bool) (row : Nat) (fwd : Bool) (s : LineSt) (k : Nat)
+    (hrow : row < c.H) (hk : k < c.W) (h : LOK c tg s) : LOK c tg (pixel c tg row fwd s k) := by
+  have hp : posOf c.W fwd k < c.W := posOf_lt _ _ _ hk
+  rw [pixel_eq]
+  by_cases htg : tg row (posOf c.W fwd k) = true
+  · simp only [htg, if_true]
+    exact ⟨by simp [h.lpan], by simp [h.llp], by simp [h.lnr], TOK_set_some _ _ _ _ _ h.tok ⟨htg, hrow, hp⟩⟩
+  · simp only [htg, Bool.false_eq_true, if_false]
+    have fr := cand_frame c row fwd k s.pan
+    have htok' : TOK c tg (cand c row fwd k s.pan).1 := TOK_frame c tg _ _ _ h.tok fr
+    rcases update_cases c s (posOf c.W fwd k) (cand c row fwd k s.pan).1 (cand c row fwd k s.pan).2 with
+      ⟨t, d, _, _, _, _, heq⟩ | ⟨heq, _⟩
+    · rw [heq]; exact ⟨by rw [← h.lpan]; exact fr.1, by simp [h.llp], by simp [h.lnr], htok'⟩
+    · rw [heq]; exact ⟨by rw [← h.lpan]; exact fr.1, h.llp, h.lnr, htok'⟩
+
+theorem sweepN_LOK (c : Cfg) (tg : Nat → Nat → Bool) (row : Nat) (fwd : Bool) (s0 : LineSt)
+    (hrow : row < c.H) (h : LOK c tg s0) : ∀ n, n ≤ c.W → LOK c tg (sweepN c tg row fwd s0 n) := by
+  intro n
+  induction n with
+  | zero => intro _; exact h
+  | succ n ih => intro hn; exact pixel_LOK c tg row fwd _ n hrow (by omega) (ih (by omega))
+
+theorem sweep_LOK (c : Cfg) (tg : Nat → Nat → Bool) (row : Nat) (fwd : Bool) (pan : List Tgt) (lp : List (Option Nat))
+    (hrow : row < c.H) (hpan : pan.length = c.W) (htok : TOK c tg pan) (hlp : lp.length = c.W) :
+    LOK c tg (sweep c tg row fwd pan lp) :=
+  sweepN_LOK c tg row fwd _ hrow ⟨hpan, hlp, by simp, htok⟩ c.W (Nat.le_refl _)
+
+/-! ### a defined proximity only ever decreases -/
+
+theorem pixel_pan_other (c : Cfg) (tg : Nat → Nat → Bool) (row : Nat) (fwd : Bool) (s : LineSt) (k q : Nat)
+    (hq : q ≠ posOf c.W fwd k) : (pixel c tg row fwd s k).pan.getD q none = s.pan.getD q none := by
+  rw [pixel_eq]
+  split
+  · exact getD_set_ne _ _ _ _ _ (Ne.symm hq)
+  · have fr := cand_frame c row fwd k s.pan
+    rcases update_cases c s (posOf c.W fwd k) (cand c row fwd k s.pan).1 (cand c row fwd k s.pan).2 with
+      ⟨t, d, _, _, _, _, heq⟩ | ⟨heq, _⟩ <;> rw [heq] <;> exact fr.2.1 q hq
+
+theorem pixel_lp_mono (c : Cfg) (tg : Nat → Nat → Bool) (row : Nat) (fwd : Bool) (s : LineSt) (k q d : Nat)
+    (h : s.lp.getD q none = some d) : ∃ d', (pixel c tg row fwd s k).lp.getD q none = some d' ∧ d' ≤ d := by
+  have hql : q < s.lp.length := by
+    apply Classical.byContradiction; intro hn
+    rw [getD_none_of_le _ _ (by omega)] at h; cases h
+  rw [pixel_eq]
+  split
+  · dsimp only
+    by_cases hqp : posOf c.W fwd k = q
+    · subst hqp
+      rw [getD_set_eq _ _ _ _ hql]; exact ⟨0, rfl, Nat.zero_le _⟩
+    · rw [getD_set_ne _ _ _ _ _ hqp]; exact ⟨d, h, Nat.le_refl _⟩
+  · rcases update_cases c s (posOf c.W fwd k) (cand c row fwd k s.pan).1 (cand c row fwd k s.pan).2 with
+      ⟨t, d1, _, _, _, hbet, heq⟩ | ⟨heq, _⟩
+    · rw [heq]
+      dsimp only
+      by_cases hqp : posOf c.W fwd k = q
+      · subst hqp
+        rw [getD_set_eq _ _ _ _ hql]
+        refine ⟨d1, rfl, ?_⟩
+        unfold better at hbet
+        rw [h] at hbet
+        simp at hbet; omega
+      · rw [getD_set_ne _ _ _ _ _ hqp]; exact ⟨d, h, Nat.le_refl _⟩
+    · rw [heq]; exact ⟨d, h, Nat.le_refl _⟩
+
+theorem sweepN_lp_mono (c : Cfg) (tg : Nat → Nat → Bool) (row : Nat) (fwd : Bool) (s0 : LineSt) (q : Nat) :
+    ∀ m n d, n ≤ m → (sweepN c tg row fwd s0 n).lp.getD q none = some d →
+      ∃ d', (sweepN c tg row fwd s0 m).lp.getD q none = some d' ∧ d' ≤ d := by
+  intro m
+  induction m with
+  | zero =>
+    intro n d hn h
+    have : n = 0 := by omega
+    subst this; exact ⟨d, h, Nat.le_refl _⟩
+  | succ m ih =>
+    intro n d hn h
+    by_cases hnm : n = m + 1
+    · subst hnm; exact ⟨d, h, Nat.le_refl _⟩
+    · obtain ⟨d1, h1, hle1⟩ := ih n d (by omega) h
+      obtain ⟨d2, h2, hle2⟩ := pixel_lp_mono c tg row fwd (sweepN c tg row fwd s0 m) m q d1 h1
+      exact ⟨d2, h2, by omega⟩
+
+theorem sweep_lp_mono (c : Cfg) (tg : Nat → Nat → Bool) (row : Nat) (fwd : Bool) (pan : List Tgt)
+    (lp : List (Option Nat)) (q d : Nat) (h : lp.getD q none = some d) :
+    ∃ d', (sweep c tg row fwd pan lp).lp.getD q none = some d' ∧ d' ≤ d :=
+  sweepN_lp_mono c tg row fwd _ q c.W 0 d (Nat.zero_le _) h
+
+theorem rowStep_lp_mono (c : Cfg) (tg : Nat → Nat → Bool) (fwdFirst : Bool) (row : Nat) (pan : List Tgt) (o : RowOut)
+    (q d : Nat) (h : o.lp.getD q none = some d) :
+    ∃ d', (rowStep c tg fwdFirst row pan o).2.lp.getD q none = some d' ∧ d' ≤ d := by
+  obtain ⟨d1, h1, hle1⟩ := sweep_lp_mono c tg row fwdFirst pan o.lp q d h
+  obtain ⟨d2, h2, hle2⟩ := sweep_lp_mono c tg row (!fwdFirst) (sweep c tg row fwdFirst pan o.lp).pan _ q d1 h1
+  exact ⟨d2, h2, by omega⟩
+
+/-! ### target cells get proximity 0 -/
+
+theorem sweep_zero (c : Cfg) (tg : Nat → Nat → Bool) (row : Nat) (fwd : Bool) (pan : List Tgt)
+    (lp : List (Option Nat)) (hrow : row < c.H) (hpan : pan.length = c.W) (htok : TOK c tg pan) (hlp : lp.length = c.W)
+    (p : Nat) (hp : p < c.W) (htg : tg row p = true) :
+    (sweep c tg row fwd pan lp).lp.getD p none = some 0 := by
+  obtain ⟨k, hk, hpk⟩ := posOf_surj c.W fwd p hp
+  have hL := sweepN_LOK c tg row fwd { pan := pan, lp := lp, nr := List.replicate c.W none } hrow
+    ⟨hpan, hlp, by simp, htok⟩ k (by omega)
+  have h1 : (sweepN c tg row fwd { pan := pan, lp := lp, nr := List.replicate c.W none } (k + 1)).lp.getD p none = some 0 := by
+    show (pixel c tg row fwd _ k).lp.getD p none = some 0
+    rw [pixel_eq, hpk, htg]
+    simp only [if_true]
+    exact getD_set_eq _ _ _ _ (by rw [hL.llp]; exact hp)
+  obtain ⟨d', h2, hle⟩ := sweepN_lp_mono c tg row fwd _ p c.W (k + 1) 0 (by omega) h1
+  have : d' = 0 := by omega
+  subst this; exact h2
+
+theorem rowStep_LOK (c : Cfg) (tg : Nat → Nat → Bool) (fwdFirst : Bool) (row : Nat) (pan : List Tgt) (o : RowOut)
+    (hrow : row < c.H) (hpan : pan.length = c.W) (htok : TOK c tg pan) (hlp : o.lp.length = c.W) :
+    (rowStep c tg fwdFirst row pan o).1.length = c.W ∧ TOK c tg (rowStep c tg fwdFirst row pan o).1 ∧
+      (rowStep c tg fwdFirst row pan o).2.lp.length = c.W := by
+  have h1 := sweep_LOK c tg row fwdFirst pan o.lp hrow hpan htok hlp
+  have h2 := sweep_LOK c tg row (!fwdFirst) _ _ hrow h1.lpan h1.tok h1.llp
+  exact ⟨h2.lpan, h2.tok, h2.llp⟩
+
+theorem rowStep_zero (c : Cfg) (tg : Nat → Nat → Bool) (fwdFirst : Bool) (row : Nat) (pan : List Tgt) (o : RowOut)
+    (hrow : row < c.H) (hpan : pan.length = c.W) (htok : TOK c tg pan) (hlp : o.lp.length = c.W)
+    (p : Nat) (hp : p < c.W) (htg : tg row p = true) :
+    (rowStep c tg fwdFirst row pan o).2.lp.getD p none = some 0 := by
+  have h1 := sweep_LOK c tg row fwdFirst pan o.lp hrow hpan htok hlp
+  exact sweep_zero c tg row (!fwdFirst) _ _ hrow h1.lpan h1.tok h1.llp p hp htg
+
+/-- the light invariant of both passes -/
+def PL (c : Cfg) (tg : Nat → Nat → Bool) (pan : List Tgt) : Prop := pan.length = c.W ∧ TOK c tg pan
+
+theorem PL_blank (c : Cfg) (tg : Nat → Nat → Bool) : PL c tg (List.replicate c.W none) :=
+  ⟨by simp, TOK_replicate c tg _⟩
+
+theorem run_zero (c : Cfg) (tg : Nat → Nat → Bool) (r p : Nat) (hr : r < c.H) (hp : p < c.W)
+    (htg : tg r p = true) : proxAt (run c tg) r p = some 0 := by
+  have := run_rows c tg (fun _ pan => PL c tg pan) (fun _ o => o.lp.length = c.W)
+    (fun _ pan => PL c tg pan) (fun row o => ∀ p, p < c.W → tg row p = true → o.lp.getD p none = some 0)
+    (PL_blank c tg)
+    (fun n pan hn hP => by
+      have := rowStep_LOK c tg true n pan (blankRow c) hn hP.1 hP.2 (by simp [blankRow])
+      exact ⟨⟨this.1, this.2.1⟩, this.2.2⟩)
+    (PL_blank c tg)
+    (fun n pan o hn hP ho => by
+      have := rowStep_LOK c tg false (c.H - 1 - n) pan o (by omega) hP.1 hP.2 ho
+      exact ⟨⟨this.1, this.2.1⟩, fun p hp htg => rowStep_zero c tg false _ pan o (by omega) hP.1 hP.2 ho p hp htg⟩)
+    r hr
+  exact this p hp htg
+
+/-! ### how a remembered target spreads: along a line, then down (up) a column -/
+
+/-- every real target is below the `2·max²` bound at (row, q): the memory is never reset there -/
+def Good (c : Cfg) (tg : Nat → Nat → Bool) (row q : Nat) : Prop :=
+  ∀ t, IsTarget c tg t → ltOpt (dT c row q t) c.max2x2 = true
+
+/-- every real target is within `max_distance` of (row, q) -/
+def Good2 (c : Cfg) (tg : Nat → Nat → Bool) (row q : Nat) : Prop :=
+  ∀ t, IsTarget c tg t → withinMax c (dT c row q t) = true
+
+theorem pixel_fill (c : Cfg) (tg : Nat → Nat → Bool) (row : Nat) (fwd : Bool) (s : LineSt) (k : Nat)
+    (hrow : row < c.H) (hk : k < c.W) (h : LOK c tg s) (hG : Good c tg row (posOf c.W fwd k))
+    (hsrc : (∃ t, s.pan.getD (posOf c.W fwd k) none = some t) ∨
+            (0 < k ∧ ∃ t, s.pan.getD (posOf c.W fwd (k - 1)) none = some t) ∨
+            (k + 1 < c.W ∧ ∃ t, s.pan.getD (posOf c.W fwd (k + 1)) none = some t) ∨
+            tg row (posOf c.W fwd k) = true) :
+    (∃ t, (pixel c tg row fwd s k).pan.getD (posOf c.W fwd k) none = some t) ∧
+    (Good2 c tg row (posOf c.W fwd k) → ∃ d, (pixel c tg row fwd s k).lp.getD (posOf c.W fwd k) none = some d) := by
+  have hp : posOf c.W fwd k < c.W := posOf_lt _ _ _ hk
+  rw [pixel_eq]
+  by_cases htg : tg row (posOf c.W fwd k) = true
+  · simp only [htg, if_true]
+    exact ⟨⟨_, getD_set_eq _ _ _ _ (by rw [h.lpan]; exact hp)⟩, fun _ => ⟨0, getD_set_eq _ _ _ _ (by rw [h.llp]; exact hp)⟩⟩
+  · simp only [htg, Bool.false_eq_true, if_false]
+    have hsrc' : ∃ t, IsTarget c tg t ∧ (s.pan.getD (posOf c.W fwd k) none = some t ∨
+         (0 < k ∧ s.pan.getD (posOf c.W fwd (k - 1)) none = some t) ∨
+         (k + 1 < c.W ∧ s.pan.getD (posOf c.W fwd (k + 1)) none = some t)) := by
+      rcases hsrc with ⟨t, ht⟩ | ⟨hk0, t, ht⟩ | ⟨hk1, t, ht⟩ | ht
+      · exact ⟨t, h.tok _ t ht, Or.inl ht⟩
+      · exact ⟨t, h.tok _ t ht, Or.inr (Or.inl ⟨hk0, ht⟩)⟩
+      · exact ⟨t, h.tok _ t ht, Or.inr (Or.inr ⟨hk1, ht⟩)⟩
+      · exact absurd ht htg
+    obtain ⟨t, hT, hs⟩ := hsrc'
+    obtain ⟨t', hc1, hc2, _⟩ := cand_adopts c row fwd k s.pan t hk h.lpan hs (hG t hT)
+    have fr := cand_frame c row fwd k s.pan
+    have hT' : IsTarget c tg t' := TOK_frame c tg _ _ _ h.tok fr _ t' hc1
+    rcases update_cases c s (posOf c.W fwd k) (cand c row fwd k s.pan).1 (cand c row fwd k s.pan).2 with
+      ⟨t2, d2, _, _, _, _, heq⟩ | ⟨heq, hno⟩
+    · rw [heq]
+      exact ⟨⟨t', hc1⟩, fun _ => ⟨d2, getD_set_eq _ _ _ _ (by rw [h.llp]; exact hp)⟩⟩
+    · rw [heq]
+      refine ⟨⟨t', hc1⟩, fun hG2 => ?_⟩
+      have hf := hno t' _ hc1 hc2
+      rw [hG2 t' hT', Bool.true_and] at hf
+      unfold better at hf
+      dsimp only
+      cases hl : s.lp.getD (posOf c.W fwd k) none with
+      | none => rw [hl] at hf; simp at hf
+      | some old => exact ⟨old, rfl⟩
+
+theorem sweepN_pan_untouched (c : Cfg) (tg : Nat → Nat → Bool) (row : Nat) (fwd : Bool) (s0 : LineSt) :
+    ∀ n m, n ≤ m → m < c.W →
+      (sweepN c tg row fwd s0 n).pan.getD (posOf c.W fwd m) none = s0.pan.getD (posOf c.W fwd m) none := by
+  intro n
+  induction n with
+  | zero => intro m _ _; rfl
+  | succ n ih =>
+    intro m hnm hm
+    show (pixel c tg row fwd _ n).pan.getD _ none = _
+    rw [pixel_pan_other c tg row fwd _ n _ (fun he => by
+      have := posOf_inj c.W fwd m n hm (by omega) he; omega)]
+    exact ih m (by omega) hm
+
+theorem sweepN_fill (c : Cfg) (tg : Nat → Nat → Bool) (row : Nat) (fwd : Bool) (s0 : LineSt)
+    (hrow : row < c.H) (h0 : LOK c tg s0) (G : Nat → Prop)
+    (hG : ∀ q, q < c.W → G q → Good c tg row q) :
+    ∀ n, n ≤ c.W → ∀ j, j < n →
+      (∃ i, i ≤ j ∧ ((∃ t, s0.pan.getD (posOf c.W fwd i) none = some t) ∨ tg row (posOf c.W fwd i) = true) ∧
+        ∀ i', i ≤ i' → i' ≤ j → G (posOf c.W fwd i')) →
+      (∃ t, (sweepN c tg row fwd s0 n).pan.getD (posOf c.W fwd j) none = some t) ∧
+      (Good2 c tg row (posOf c.W fwd j) → ∃ d, (sweepN c tg row fwd s0 n).lp.getD (posOf c.W fwd j) none = some d) := by
+  intro n
+  induction n with
+  | zero => intro _ j hj; omega
+  | succ n ih =>
+    intro hn j hj hsrc
+    have hL := sweepN_LOK c tg row fwd s0 hrow h0 n (by omega)
+    by_cases hjn : j < n
+    · obtain ⟨⟨t, ht⟩, hlp⟩ := ih (by omega) j hjn hsrc
+      refine ⟨⟨t, ?_⟩, fun hG2 => ?_⟩
+      · show (pixel c tg row fwd _ n).pan.getD _ none = _
+        rw [pixel_pan_other c tg row fwd _ n _ (fun he => by
+          have := posOf_inj c.W fwd j n (by omega) (by omega) he; omega)]
+        exact ht
+      · obtain ⟨d, hd⟩ := hlp hG2
+        obtain ⟨d', hd', _⟩ := pixel_lp_mono c tg row fwd (sweepN c tg row fwd s0 n) n _ d hd
+        exact ⟨d', hd'⟩
+    · have hjeq : j = n := by omega
+      subst hjeq
+      obtain ⟨i, hij, hi, hGi⟩ := hsrc
+      have hGood : Good c tg row (posOf c.W fwd j) := hG _ (posOf_lt _ _ _ (by omega)) (hGi j hij (Nat.le_refl _))
+      apply pixel_fill c tg row fwd _ j hrow (by omega) hL hGood
+      by_cases hij' : i = j
+      · subst hij'
+        rcases hi with ⟨t, ht⟩ | ht
+        · left
+          exact ⟨t, by rw [sweepN_pan_untouched c tg row fwd s0 i i (Nat.le_refl _) (by omega)]; exact ht⟩
+        · right; right; right; exact ht
+      · right; left
+        refine ⟨by omega, ?_⟩
+        exact (ih (by omega) (j - 1) (by omega) ⟨i, by omega, hi, fun i' h1 h2 => hGi i' h1 (by omega)⟩).1
+
+/-- one sweep: a target remembered at (or sitting on) column `c0` upstream of column `p` reaches `p` when every
+    column from `c0` to `p` is `Good` -/
+theorem sweep_fill_col (c : Cfg) (tg : Nat → Nat → Bool) (row : Nat) (fwd : Bool) (pan : List Tgt) (lp : List (Option Nat))
+    (hrow : row < c.H) (hpan : pan.length = c.W) (htok : TOK c tg pan) (hlp : lp.length = c.W)
+    (p c0 : Nat) (hp : p < c.W) (hc0 : c0 < c.W)
+    (hup : if fwd then c0 ≤ p else p ≤ c0)
+    (hsrc : (∃ t, pan.getD c0 none = some t) ∨ tg row c0 = true)
+    (hG : ∀ q, q < c.W → ((c0 ≤ q ∧ q ≤ p) ∨ (p ≤ q ∧ q ≤ c0)) → Good c tg row q) :
+    (∃ t, (sweep c tg row fwd pan lp).pan.getD p none = some t) ∧
+    (Good2 c tg row p → ∃ d, (sweep c tg row fwd pan lp).lp.getD p none = some d) := by
+  have h0 : LOK c tg { pan := pan, lp := lp, nr := List.replicate c.W none } := ⟨hpan, hlp, by simp, htok⟩
+  have key := sweepN_fill c tg row fwd _ hrow h0 (fun q => (c0 ≤ q ∧ q ≤ p) ∨ (p ≤ q ∧ q ≤ c0)) hG c.W (Nat.le_refl _)
+  unfold sweep
+  cases fwd
+  · simp only [Bool.false_eq_true, if_false] at hup
+    have hpos : ∀ i, posOf c.W false i = c.W - 1 - i := fun i => by simp [posOf]
+    have := key (c.W - 1 - p) (by omega) ⟨c.W - 1 - c0, by omega, by
+      rw [hpos]
+      have : c.W - 1 - (c.W - 1 - c0) = c0 := by omega
+      rw [this]; exact hsrc, fun i' h1 h2 => by rw [hpos]; right; omega⟩
+    rw [hpos] at this
+    have hpp : c.W - 1 - (c.W - 1 - p) = p := by omega
+    rw [hpp] at this
+    exact this
+  · simp only [if_true] at hup
+    have hpos : ∀ i, posOf c.W true i = i := fun i => by simp [posOf]
+    have := key p hp ⟨c0, hup, by rw [hpos]; exact hsrc, fun i' h1 h2 => by rw [hpos]; left; omega⟩
+    rw [hpos] at this
+    exact this
+
+/-- one raster line in one pass (two sweeps): column `p` ends up remembering a target when it did before
+    (`c0 = p`) or when the line has a target at column `c0`, provided the columns in between are `Good` -/
+theorem rowStep_fill (c : Cfg) (tg : Nat → Nat → Bool) (fwdFirst : Bool) (row : Nat) (pan : List Tgt) (o : RowOut)
+    (hrow : row < c.H) (hpan : pan.length = c.W) (htok : TOK c tg pan) (hlp : o.lp.length = c.W)
+    (p c0 : Nat) (hp : p < c.W) (hc0 : c0 < c.W)
+    (hsrc : ((∃ t, pan.getD p none = some t) ∧ c0 = p) ∨ tg row c0 = true)
+    (hG : ∀ q, q < c.W → ((c0 ≤ q ∧ q ≤ p) ∨ (p ≤ q ∧ q ≤ c0)) → Good c tg row q) :
+    (∃ t, (rowStep c tg fwdFirst row pan o).1.getD p none = some t) ∧
+    (Good2 c tg row p → ∃ d, (rowStep c tg fwdFirst row pan o).2.lp.getD p none = some d) := by
+  have h1 := sweep_LOK c tg row fwdFirst pan o.lp hrow hpan htok hlp
+  have hGp : ∀ q, q < c.W → ((p ≤ q ∧ q ≤ p) ∨ (p ≤ q ∧ q ≤ p)) → Good c tg row q := fun q hq hb => by
+    have : q = p := by omega
+    subst this
+    exact hG q hq (by omega)
+  -- the second sweep keeps what the first one achieved
+  have second : (∃ t, (sweep c tg row fwdFirst pan o.lp).pan.getD p none = some t) →
+      (∃ t, (rowStep c tg fwdFirst row pan o).1.getD p none = some t) ∧
+      (Good2 c tg row p → ∃ d, (rowStep c tg fwdFirst row pan o).2.lp.getD p none = some d) := fun hs =>
+    sweep_fill_col c tg row (!fwdFirst) _ _ hrow h1.lpan h1.tok h1.llp p p hp hp
+      (by cases fwdFirst <;> simp) (Or.inl hs) hGp
+  rcases hsrc with ⟨hs, hcp⟩ | htg
+  · subst hcp
+    exact second (sweep_fill_col c tg row fwdFirst pan o.lp hrow hpan htok hlp c0 c0 hp hp
+      (by cases fwdFirst <;> simp) (Or.inl hs) hGp).1
+  · by_cases hup : (if fwdFirst then c0 ≤ p else p ≤ c0)
+    · exact second (sweep_fill_col c tg row fwdFirst pan o.lp hrow hpan htok hlp p c0 hp hc0 hup (Or.inr htg) hG).1
+    · exact sweep_fill_col c tg row (!fwdFirst) _ _ hrow h1.lpan h1.tok h1.llp p c0 hp hc0
+        (by cases fwdFirst <;> simp at hup ⊢ <;> omega) (Or.inr htg) hG
+
+/-- **reach**: a target at (r0, c0) gives the cell (r, p) a defined proximity when no reset can happen along
+    the line r0 from c0 to p and along the column p from r0 to r, and the cell is within `max_distance` of every target -/
+theorem run_reach (c : Cfg) (tg : Nat → Nat → Bool) (r0 c0 r p : Nat) (ht0 : IsTarget c tg (r0, c0))
+    (hr : r < c.H) (hp : p < c.W)
+    (hrowG : ∀ q, q < c.W → ((c0 ≤ q ∧ q ≤ p) ∨ (p ≤ q ∧ q ≤ c0)) → Good c tg r0 q)
+    (hcolG : ∀ row, ((r0 ≤ row ∧ row ≤ r) ∨ (r ≤ row ∧ row ≤ r0)) → Good c tg row p)
+    (hfin : Good2 c tg r p) : ∃ d, proxAt (run c tg) r p = some d := by
+  have hr0 : r0 < c.H := ht0.2.1
+  have hc0 : c0 < c.W := ht0.2.2
+  have hGp : ∀ row, ((r0 ≤ row ∧ row ≤ r) ∨ (r ≤ row ∧ row ≤ r0)) →
+      ∀ q, q < c.W → ((p ≤ q ∧ q ≤ p) ∨ (p ≤ q ∧ q ≤ p)) → Good c tg row q := fun row hb q hq hq' => by
+    have : q = p := by omega
+    subst this; exact hcolG row hb
+  by_cases hle : r0 ≤ r
+  · -- the top-down pass reaches (r, p); the bottom-up pass keeps it
+    have := run_rows c tg
+      (fun n pan => PL c tg pan ∧ (r0 < n → n ≤ r + 1 → ∃ t, pan.getD p none = some t))
+      (fun row o => o.lp.length = c.W ∧ (row = r → ∃ d, o.lp.getD p none = some d))
+      (fun _ pan => PL c tg pan)
+      (fun row o => row = r → ∃ d, o.lp.getD p none = some d)
+      ⟨PL_blank c tg, fun h => by omega⟩
+      (fun n pan hn hP => by
+        have hl := rowStep_LOK c tg true n pan (blankRow c) hn hP.1.1 hP.1.2 (by simp [blankRow])
+        by_cases hin : r0 ≤ n ∧ n ≤ r
+        · have hf : (∃ t, (rowStep c tg true n pan (blankRow c)).1.getD p none = some t) ∧
+              (Good2 c tg n p → ∃ d, (rowStep c tg true n pan (blankRow c)).2.lp.getD p none = some d) := by
+            by_cases hn0 : n = r0
+            · subst hn0
+              exact rowStep_fill c tg true n pan (blankRow c) hn hP.1.1 hP.1.2 (by simp [blankRow]) p c0 hp hc0
+                (Or.inr ht0.1) hrowG
+            · exact rowStep_fill c tg true n pan (blankRow c) hn hP.1.1 hP.1.2 (by simp [blankRow]) p p hp hp
+                (Or.inl ⟨hP.2 (by omega) (by omega), rfl⟩) (hGp n (by omega))
+          exact ⟨⟨⟨hl.1, hl.2.1⟩, fun _ _ => hf.1⟩, hl.2.2, fun hnr => hf.2 (hnr ▸ hfin)⟩
+        · exact ⟨⟨⟨hl.1, hl.2.1⟩, fun h1 h2 => by omega⟩, hl.2.2, fun hnr => by omega⟩)
+      (PL_blank c tg)
+      (fun n pan o hn hP ho => by
+        have hl := rowStep_LOK c tg false (c.H - 1 - n) pan o (by omega) hP.1 hP.2 ho.1
+        refine ⟨⟨hl.1, hl.2.1⟩, fun hnr => ?_⟩
+        obtain ⟨d, hd⟩ := ho.2 hnr
+        obtain ⟨d', hd', _⟩ := rowStep_lp_mono c tg false (c.H - 1 - n) pan o p d hd
+        exact ⟨d', hd'⟩)
+      r hr
+    exact this rfl
+  · -- the bottom-up pass reaches (r, p)
+    have := run_rows c tg
+      (fun _ pan => PL c tg pan)
+      (fun _ o => o.lp.length = c.W)
+      (fun n pan => PL c tg pan ∧ (c.H - 1 - r0 < n → n ≤ c.H - 1 - r + 1 → ∃ t, pan.getD p none = some t))
+      (fun row o => row = r → ∃ d, o.lp.getD p none = some d)
+      (PL_blank c tg)
+      (fun n pan hn hP => by
+        have hl := rowStep_LOK c tg true n pan (blankRow c) hn hP.1 hP.2 (by simp [blankRow])
+        exact ⟨⟨hl.1, hl.2.1⟩, hl.2.2⟩)
+      ⟨PL_blank c tg, fun h => by omega⟩
+      (fun n pan o hn hP ho => by
+        have hrow : c.H - 1 - n < c.H := by omega
+        have hl := rowStep_LOK c tg false (c.H - 1 - n) pan o hrow hP.1.1 hP.1.2 ho
+        by_cases hin : r ≤ c.H - 1 - n ∧ c.H - 1 - n ≤ r0
+        · have hf : (∃ t, (rowStep c tg false (c.H - 1 - n) pan o).1.getD p none = some t) ∧
+              (Good2 c tg (c.H - 1 - n) p → ∃ d, (rowStep c tg false (c.H - 1 - n) pan o).2.lp.getD p none = some d) := by
+            by_cases hn0 : c.H - 1 - n = r0
+            · rw [hn0]
+              exact rowStep_fill c tg false r0 pan o hr0 hP.1.1 hP.1.2 ho p c0 hp hc0 (Or.inr ht0.1) hrowG
+            · exact rowStep_fill c tg false (c.H - 1 - n) pan o hrow hP.1.1 hP.1.2 ho p p hp hp
+                (Or.inl ⟨hP.2 (by omega) (by omega), rfl⟩) (hGp _ (by omega))
+          exact ⟨⟨⟨hl.1, hl.2.1⟩, fun _ _ => hf.1⟩, fun hnr => hf.2 (hnr ▸ hfin)⟩
+        · exact ⟨⟨⟨hl.1, hl.2.1⟩, fun h1 h2 => by omega⟩, fun hnr => by omega⟩)
+      r hr
+    exact this rfl
+
+/-! ### the exact nearest distance -/
+
+theorem mem_cells (c : Cfg) (t : Nat × Nat) : t ∈ cells c ↔ t.1 < c.H ∧ t.2 < c.W := by
+  obtain ⟨a, b⟩ := t
+  simp only [cells, List.mem_flatMap, List.mem_map, List.mem_range, Prod.mk.injEq]
+  constructor
+  · rintro ⟨r, hr, p, hp, h1, h2⟩; subst h1; subst h2; exact ⟨hr, hp⟩
+  · rintro ⟨h1, h2⟩; exact ⟨a, h1, b, h2, rfl, rfl⟩
+
+/-- one step of the fold in `exact` -/
+def exStep (c : Cfg) (tg : Nat → Nat → Bool) (r p : Nat) (acc : Option Nat) (t : Nat × Nat) : Option Nat :=
+  if tg t.1 t.2 then minOpt acc (dist2 c t.1 t.2 r p) else acc
+
+theorem exact_eq (c : Cfg) (tg : Nat → Nat → Bool) (r p : Nat) :
+    exact c tg r p = (cells c).foldl (exStep c tg r p) none := rfl
+
+theorem exFold_mono (c : Cfg) (tg : Nat → Nat → Bool) (r p : Nat) (l : List (Nat × Nat)) :
+    ∀ acc e, acc = some e → ∃ e', l.foldl (exStep c tg r p) acc = some e' ∧ e' ≤ e := by
+  induction l with
+  | nil => intro acc e h; exact ⟨e, h, Nat.le_refl _⟩
+  | cons t l ih =>
+    intro acc e h
+    subst h
+    simp only [List.foldl_cons]
+    unfold exStep
+    split
+    · obtain ⟨e', h1, h2⟩ := ih _ (min e (dist2 c t.1 t.2 r p)) rfl
+      exact ⟨e', h1, Nat.le_trans h2 (Nat.min_le_left _ _)⟩
+    · exact ih _ e rfl
+
+theorem exFold_le (c : Cfg) (tg : Nat → Nat → Bool) (r p : Nat) (l : List (Nat × Nat)) :
+    ∀ acc t, t ∈ l → tg t.1 t.2 = true →
+      ∃ e, l.foldl (exStep c tg r p) acc = some e ∧ e ≤ dist2 c t.1 t.2 r p := by
+  induction l with
+  | nil => intro acc t h; cases h
+  | cons x l ih =>
+    intro acc t hm htg
+    simp only [List.foldl_cons]
+    rcases List.mem_cons.mp hm with hx | hl
+    · subst hx
+      have hs : exStep c tg r p acc t = minOpt acc (dist2 c t.1 t.2 r p) := by simp [exStep, htg]
+      rw [hs]
+      cases acc with
+      | none => exact exFold_mono c tg r p l _ _ rfl
+      | some b =>
+        obtain ⟨e', h1, h2⟩ := exFold_mono c tg r p l _ (min b (dist2 c t.1 t.2 r p)) rfl
+        exact ⟨e', h1, Nat.le_trans h2 (Nat.min_le_right _ _)⟩
+    · exact ih _ t hl htg
+
+theorem exFold_attained (c : Cfg) (tg : Nat → Nat → Bool) (r p : Nat) (l : List (Nat × Nat)) :
+    ∀ acc e, l.foldl (exStep c tg r p) acc = some e →
+      acc = some e ∨ ∃ t, t ∈ l ∧ tg t.1 t.2 = true ∧ e = dist2 c t.1 t.2 r p := by
+  induction l with
+  | nil => intro acc e h; exact Or.inl h
+  | cons x l ih =>
+    intro acc e h
+    simp only [List.foldl_cons] at h
+    rcases ih _ e h with h1 | ⟨t, ht, htg, he⟩
+    · unfold exStep at h1
+      split at h1
+      · rename_i hx
+        cases acc with
+        | none =>
+          simp only [minOpt, Option.some.injEq] at h1
+          exact Or.inr ⟨x, List.mem_cons_self, hx, h1.symm⟩
+        | some b =>
+          simp only [minOpt, Option.some.injEq] at h1
+          by_cases hb : b ≤ dist2 c x.1 x.2 r p
+          · left; rw [Nat.min_eq_left hb] at h1; rw [h1]
+          · right
+            rw [Nat.min_eq_right (by omega)] at h1
+            exact ⟨x, List.mem_cons_self, hx, h1.symm⟩
+      · exact Or.inl h1
+    · exact Or.inr ⟨t, List.mem_cons_of_mem _ ht, htg, he⟩
+
+/-- the exact nearest distance is at most the distance to any target of the grid -/
+theorem exact_le (c : Cfg) (tg : Nat → Nat → Bool) (r p : Nat) (t : Nat × Nat) (ht : IsTarget c tg t) :
+    ∃ e, exact c tg r p = some e ∧ e ≤ dT c r p t := by
+  rw [exact_eq]
+  exact exFold_le c tg r p (cells c) none t ((mem_cells c t).mpr ⟨ht.2.1, ht.2.2⟩) ht.1
+
+/-- ... and it is the distance to some target of the grid -/
+theorem exact_attained (c : Cfg) (tg : Nat → Nat → Bool) (r p e : Nat) (h : exact c tg r p = some e) :
+    ∃ t, IsTarget c tg t ∧ e = dT c r p t := by
+  rw [exact_eq] at h
+  rcases exFold_attained c tg r p (cells c) none e h with h1 | ⟨t, ht, htg, he⟩
+  · cases h1
+  · exact ⟨t, ⟨htg, ((mem_cells c t).mp ht).1, ((mem_cells c t).mp ht).2⟩, he⟩
+
+theorem exact_none (c : Cfg) (tg : Nat → Nat → Bool) (r p : Nat) (h : exact c tg r p = none) :
+    ∀ t, ¬ IsTarget c tg t := by
+  intro t ht
+  obtain ⟨e, he, _⟩ := exact_le c tg r p t ht
+  rw [h] at he; cases he
+
+/-! ### planar metrics -/
+
+def Cfg.Planar (c : Cfg) : Prop := c.metric = .euclid ∨ c.metric = .manh
+
+theorem adiff_self (a : Nat) : adiff a a = 0 := by simp [adiff]
+
+theorem adiff_eq_zero (a b : Nat) (h : adiff a b = 0) : a = b := by
+  unfold adiff at h; omega
+
+theorem planar_refl (c : Cfg) (h : c.Planar) : c.Refl := by
+  intro r p
+  unfold dist2
+  rcases h with h | h <;> simp [h, adiff_self]
+
+/-- distinct cells are at a positive distance (positive coordinate steps) -/
+theorem planar_sep (c : Cfg) (h : c.Planar) (hsx : 0 < c.sx) (hsy : 0 < c.sy) (r1 c1 r2 c2 : Nat)
+    (hd : dist2 c r1 c1 r2 c2 = 0) : r1 = r2 ∧ c1 = c2 := by
+  unfold dist2 at hd
+  have key : adiff c1 c2 * c.sx = 0 ∧ adiff r1 r2 * c.sy = 0 := by
+    rcases h with h | h
+    · rw [h] at hd
+      simp only at hd
+      have h1 := Nat.eq_zero_of_add_eq_zero_right hd
+      have h2 := Nat.eq_zero_of_add_eq_zero_left hd
+      exact ⟨by rcases Nat.mul_eq_zero.mp h1 with h | h <;> exact h, by rcases Nat.mul_eq_zero.mp h2 with h | h <;> exact h⟩
+    · rw [h] at hd
+      simp only at hd
+      have h0 : adiff c1 c2 * c.sx + adiff r1 r2 * c.sy = 0 := by
+        rcases Nat.mul_eq_zero.mp hd with h | h <;> exact h
+      exact ⟨Nat.eq_zero_of_add_eq_zero_right h0, Nat.eq_zero_of_add_eq_zero_left h0⟩
+  constructor
+  · apply adiff_eq_zero
+    rcases Nat.mul_eq_zero.mp key.2 with h | h
+    · exact h
+    · omega
+  · apply adiff_eq_zero
+    rcases Nat.mul_eq_zero.mp key.1 with h | h
+    · exact h
+    · omega
+
+/-- planar distances grow with the row and column offsets -/
+theorem planar_mono (c : Cfg) (h : c.Planar) (r0 c0 r1 c1 r2 c2 : Nat)
+    (hr : adiff r0 r1 ≤ adiff r0 r2) (hc : adiff c0 c1 ≤ adiff c0 c2) :
+    dist2 c r0 c0 r1 c1 ≤ dist2 c r0 c0 r2 c2 := by
+  unfold dist2
+  have hx : adiff c0 c1 * c.sx ≤ adiff c0 c2 * c.sx := Nat.mul_le_mul_right _ hc
+  have hy : adiff r0 r1 * c.sy ≤ adiff r0 r2 * c.sy := Nat.mul_le_mul_right _ hr
+  rcases h with h | h
+  · rw [h]
+    exact Nat.add_le_add (Nat.mul_le_mul hx hx) (Nat.mul_le_mul hy hy)
+  · rw [h]
+    exact Nat.mul_le_mul (Nat.add_le_add hx hy) (Nat.add_le_add hx hy)
+
+/-! ### the model only looks at the target predicate inside the grid -/
+
+/-- two target predicates that agree on the grid -/
+def SameOnGrid (c : Cfg) (tg tg' : Nat → Nat → Bool) : Prop := ∀ r p, r < c.H → p < c.W → tg r p = tg' r p
+
+theorem pixel_congr (c : Cfg) (tg tg' : Nat → Nat → Bool) (h : SameOnGrid c tg tg') (row : Nat) (fwd : Bool)
+    (s : LineSt) (k : Nat) (hrow : row < c.H) (hk : k < c.W) :
+    pixel c tg row fwd s k = pixel c tg' row fwd s k := by
+  rw [pixel_eq, pixel_eq, h row _ hrow (posOf_lt _ _ _ hk)]
+
+theorem sweepN_congr (c : Cfg) (tg tg' : Nat → Nat → Bool) (h : SameOnGrid c tg tg') (row : Nat) (fwd : Bool)
+    (s0 : LineSt) (hrow : row < c.H) : ∀ n, n ≤ c.W → sweepN c tg row fwd s0 n = sweepN c tg' row fwd s0 n := by
+  intro n
+  induction n with
+  | zero => intro _; rfl
+  | succ n ih =>
+    intro hn
+    show pixel c tg row fwd (sweepN c tg row fwd s0 n) n = pixel c tg' row fwd (sweepN c tg' row fwd s0 n) n
+    rw [ih (by omega), pixel_congr c tg tg' h row fwd _ n hrow (by omega)]
+
+theorem rowStep_congr (c : Cfg) (tg tg' : Nat → Nat → Bool) (h : SameOnGrid c tg tg') (fwdFirst : Bool) (row : Nat)
+    (pan : List Tgt) (o : RowOut) (hrow : row < c.H) :
+    rowStep c tg fwdFirst row pan o = rowStep c tg' fwdFirst row pan o := by
+  unfold rowStep sweep
+  simp only [sweepN_congr c tg tg' h row _ _ hrow c.W (Nat.le_refl _)]
+
+theorem tdN_congr (c : Cfg) (tg tg' : Nat → Nat → Bool) (h : SameOnGrid c tg tg') :
+    ∀ n, n ≤ c.H → tdN c tg n = tdN c tg' n := by
+  intro n
+  induction n with
+  | zero => intro _; rfl
+  | succ n ih =>
+    intro hn
+    rw [tdN_succ, tdN_succ, ih (by omega), rowStep_congr c tg tg' h true n _ _ (by omega)]
+
+theorem buN_congr (c : Cfg) (tg tg' : Nat → Nat → Bool) (h : SameOnGrid c tg tg') (td : List RowOut) :
+    ∀ n, n ≤ c.H → buN c tg td n = buN c tg' td n := by
+  intro n
+  induction n with
+  | zero => intro _; rfl
+  | succ n ih =>
+    intro hn
+    rw [buN_succ, buN_succ, ih (by omega), rowStep_congr c tg tg' h false _ _ _ (by omega)]
+
+theorem run_congr (c : Cfg) (tg tg' : Nat → Nat → Bool) (h : SameOnGrid c tg tg') : run c tg = run c tg' := by
+  unfold run
+  rw [tdN_congr c tg tg' h c.H (Nat.le_refl _), buN_congr c tg tg' h _ c.H (Nat.le_refl _)]
+
+theorem foldl_congr_mem {α β} (f g : β → α → β) (l : List α) (h : ∀ acc x, x ∈ l → f acc x = g acc x) :
+    ∀ a, l.foldl f a = l.foldl g a := by
+  induction l with
+  | nil => intro a; rfl
+  | cons x l ih =>
+    intro a
+    simp only [List.foldl_cons]
+    rw [h a x List.mem_cons_self]
+    exact ih (fun acc y hy => h acc y (List.mem_cons_of_mem _ hy)) _
+
+theorem exact_congr (c : Cfg) (tg tg' : Nat → Nat → Bool) (h : SameOnGrid c tg tg') (r p : Nat) :
+    exact c tg r p = exact c tg' r p := by
+  rw [exact_eq, exact_eq]
+  apply foldl_congr_mem
+  intro acc x hx
+  unfold exStep
+  rw [h x.1 x.2 ((mem_cells c x).mp hx).1 ((mem_cells c x).mp hx).2]
+
+theorem exactCut_congr (c : Cfg) (tg tg' : Nat → Nat → Bool) (h : SameOnGrid c tg tg') (r p : Nat) :
+    exactCut c tg r p = exactCut c tg' r p := by
+  unfold exactCut
+  rw [exact_congr c tg tg' h]
+
+/-! ### every target layout is `layoutOf c m` for some mask `m < 2^(H·W)` -/
+
+theorem bit_eq (m i : Nat) : ((m >>> i) % 2 == 1) = m.testBit i := by
+  rw [Nat.testBit_eq_decide_div_mod_eq, Nat.shiftRight_eq_div_pow]
+  rw [Bool.eq_iff_iff]
+  simp
+
+theorem bits_surj : ∀ (n : Nat) (f : Nat → Bool), ∃ m, m < 2 ^ n ∧ ∀ i, i < n → m.testBit i = f i := by
+  intro n
+  induction n with
+  | zero => intro f; exact ⟨0, by simp, fun i hi => by omega⟩
+  | succ n ih =>
+    intro f
+    obtain ⟨m, hm, hbits⟩ := ih f
+    by_cases hf : f n = true
+    · refine ⟨2 ^ n + m, by rw [Nat.pow_succ]; omega, fun i hi => ?_⟩
+      by_cases hin : i < n
+      · rw [Nat.testBit_two_pow_add_gt hin]; exact hbits i hin
+      · have : i = n := by omega
+        subst this
+        rw [Nat.testBit_two_pow_add_eq, Nat.testBit_lt_two_pow hm, hf]; rfl
+    · refine ⟨m, by rw [Nat.pow_succ]; omega, fun i hi => ?_⟩
+      by_cases hin : i < n
+      · exact hbits i hin
+      · have : i = n := by omega
+        subst this
+        rw [Nat.testBit_lt_two_pow hm]
+        simp at hf; exact hf.symm
+
+theorem layout_surj (c : Cfg) (tg : Nat → Nat → Bool) :
+    ∃ m, m < 2 ^ (c.H * c.W) ∧ SameOnGrid c tg (layoutOf c m) := by
+  obtain ⟨m, hm, hbits⟩ := bits_surj (c.H * c.W) (fun i => tg (i / c.W) (i % c.W))
+  refine ⟨m, hm, fun r p hr hp => ?_⟩
+  unfold layoutOf
+  have hW : 0 < c.W := by omega
+  have hi : r * c.W + p < c.H * c.W := by
+    have : (r + 1) * c.W ≤ c.H * c.W := Nat.mul_le_mul_right _ hr
+    rw [Nat.add_mul] at this
+    omega
+  have hb := hbits (r * c.W + p) hi
+  have h1 : (r * c.W + p) / c.W = r := by
+    rw [Nat.add_comm, Nat.add_mul_div_right _ _ hW, Nat.div_eq_of_lt hp, Nat.zero_add]
+  have h2 : (r * c.W + p) % c.W = p := by
+    rw [Nat.add_comm, Nat.add_mul_mod_self_right, Nat.mod_eq_of_lt hp]
+  rw [h1, h2] at hb
+  simp only [hr, hp, decide_true, Bool.true_and, bit_eq]
+  exact hb.symm
+
+/-- from the finite table to every target predicate -/
+theorem checkAll_spec (c : Cfg) (h : checkAll c = true) (tg : Nat → Nat → Bool) (r p : Nat)
+    (hr : r < c.H) (hp : p < c.W) : proxAt (run c tg) r p = exactCut c tg r p := by
+  obtain ⟨m, hm, hsame⟩ := layout_surj c tg
+  rw [run_congr c tg _ hsame, exactCut_congr c tg _ hsame]
+  unfold checkAll at h
+  rw [List.all_eq_true] at h
+  have h1 := h m (List.mem_range.mpr hm)
+  unfold checkLayout at h1
+  simp only [List.all_eq_true, List.mem_range] at h1
+  have h2 := h1 r hr p hp
+  exact eq_of_beq h2
+
 end XrsVerif.Prox
